@@ -125,7 +125,7 @@ func BalanceOf(w *world.World, ctx sdk.Context, token common.Address, holder com
 // TotalSupply of an ERC-20.
 func TotalSupply(w *world.World, ctx sdk.Context, token common.Address) sdkmath.Int {
 	var res struct{ Value *big.Int }
-	if err := w.Query(ctx, common.Address{}, token, contract.GetFIP20().ABI, &res, "totalSupply"); err != nil {
+	if err := w.Query(ctx, common.BytesToAddress(w.A("bank").Acc()), token, contract.GetFIP20().ABI, &res, "totalSupply"); err != nil {
 		panic(err)
 	}
 	return sdkmath.NewIntFromBigInt(res.Value)
